@@ -166,6 +166,41 @@ def abstract_nl(exprs, reals=True):
     return [rb(e) for e in exprs]
 
 
+def generalize(exprs):
+    """replace maximal arithmetic subterms that occur at least twice by fresh constants (generalisation: if the result is
+    valid so is the original, since the fresh constants range over all values the subterms can take)"""
+    count = {}
+    seen_parent = set()
+
+    def walk(e, parent_id):
+        if not z3.is_app(e): return
+        k = e.get_id()
+        if (z3.is_real(e) or z3.is_int(e)) and e.num_args() > 0 and e.decl().kind() in (z3.Z3_OP_ADD, z3.Z3_OP_SUB, z3.Z3_OP_MUL, z3.Z3_OP_DIV, z3.Z3_OP_UMINUS):
+            if (k, parent_id) not in seen_parent:
+                seen_parent.add((k, parent_id)); count[k] = count.get(k, 0) + 1
+        if (k, 'visited') in seen_parent: return
+        seen_parent.add((k, 'visited'))
+        for c in e.children(): walk(c, k)
+    for i, e in enumerate(exprs): walk(e, ('root', i))
+    memo = {}; fresh = {}
+
+    def rb(e):
+        k = e.get_id()
+        if k in memo: return memo[k]
+        if not z3.is_app(e) or e.num_args() == 0:
+            memo[k] = e; return e
+        if count.get(k, 0) >= 2 and e.num_args() > 0:
+            if k not in fresh: fresh[k] = z3.Const('gen!%d' % k, e.sort())
+            memo[k] = fresh[k]; return fresh[k]
+        try:
+            r = e.decl()(*[rb(c) for c in e.children()])
+        except Exception:
+            r = e
+        memo[k] = r
+        return r
+    return [rb(e) for e in exprs]
+
+
 def to_smt2(hyps, goal, get_values=()):
     s = z3.Solver()
     for h in hyps: s.add(h)
